@@ -115,6 +115,6 @@ theorem clone_independent (s : Rec) (f : String) (v : Nat) :
   exact ⟨fun _ => rfl, fun g hg => by simp [hg]⟩
 
 /-! Non-vacuity. -/
-example : (takes.filter (fun t => t.name == "SelectStatement" && t.fields.length == 16)).length = 1 := by decide
+example : (takes.filter (fun t => t.name == "SelectStatement" && t.fields.contains "window" && t.fields.contains "lock")).length = 1 := by decide
 
 end SeaQ.Props.C15
